@@ -681,3 +681,47 @@ Proof.
   cbn [step]. rewrite Hr, L. reflexivity.
 Qed.
 
+
+(* ------------------------------------------------------------------ no time-out before the time-to-live is over *)
+
+(* a call gets onto the expired list (and from there is completed with RequestTimeout) only by a
+   sweep whose instant lies after the call's deadline *)
+Definition swept_overdue (ops : list op) (c : ctx) : Prop := exists now, In (OSweep now) ops /\ cdl c < now.
+
+Definition timed_out (s : st) : list ctx :=
+  expired s ++ map fst (filter (fun e => (rid (snd e) =? -1) && (rerr (snd e) =? codes_RequestTimeout)) (inflight s)).
+
+Lemma step_expired_origin s o c : In c (expired (fst (step s o))) ->
+  In c (expired s) \/ exists now, o = OSweep now /\ cdl c < now.
+Proof.
+  destruct o as [sync dl|r|now| |r| |n]; cbn [step].
+  - destruct (probe fuel16 (counter s) (pending s)); simpl; auto.
+  - destruct (lookup (rseq r) (pending s)); simpl; auto.
+  - simpl. intros H. apply in_app_or in H. destruct H as [H|H]; [left; exact H|].
+    right. exists now. split; [reflexivity|].
+    apply in_map_iff in H. destruct H as [[k c'] [E H]]. simpl in E. subst c'.
+    apply filter_In in H. destruct H as [_ H]. unfold overdue in H. simpl in H. apply Z.ltb_lt in H. exact H.
+  - simpl. tauto.
+  - destruct (lookup (rseq r) (pending s)); simpl; auto.
+  - simpl. tauto.
+  - destruct (nth_error (inflight s) n) as [[c' r]|]; simpl; auto.
+Qed.
+
+Theorem expired_only_overdue ops : forall s c,
+  In c (expired (fst (run s ops))) -> In c (expired s) \/ swept_overdue ops c.
+Proof.
+  induction ops as [|o ops IH]; intros s c H; simpl in H; [left; exact H|].
+  destruct (step s o) as [s1 x] eqn:E1. destruct (run s1 ops) as [s2 xs] eqn:E2. simpl in H.
+  assert (H2 : In c (expired (fst (run s1 ops)))) by (rewrite E2; exact H).
+  destruct (IH s1 c H2) as [H1|[now [Hin Hd]]].
+  - assert (H1' : In c (expired (fst (step s o)))) by (rewrite E1; exact H1).
+    destruct (step_expired_origin s o c H1') as [H0|[now [-> Hd]]]; [left; exact H0|].
+    right. exists now. split; [left; reflexivity | exact Hd].
+  - right. exists now. split; [right; exact Hin | exact Hd].
+Qed.
+
+(* ... in particular from a fresh client: whatever ReapTimeout completes with the time-out code was
+   found overdue by a sweep of this very history *)
+Theorem timeout_only_when_overdue c0 ops c :
+  In c (expired (fst (run (init c0) ops))) -> swept_overdue ops c.
+Proof. intros H. destruct (expired_only_overdue ops (init c0) c H) as [H0|H0]; [simpl in H0; contradiction | exact H0]. Qed.
